@@ -291,7 +291,8 @@ def main(argv=None):
         if any(l == label and not v for l, v in r['obs']):
             return True
         # the concrete run crashed before reaching the obligation: still a real failure of the kernel on these inputs
-        return bool(r['exc'])
+        # (a replay that merely ran out of time proves nothing)
+        return bool(r['exc']) and r['exc'][0] != 'ReplayTimeout'
 
     if results is not None:
         # second opinion in the other number mode (floats <-> Fractions) for everything that did not match at first:
